@@ -7,6 +7,7 @@ package main
 import (
 	"encoding/json"
 	"fmt"
+	"go/types"
 	"os"
 	"os/exec"
 	"path/filepath"
@@ -14,6 +15,7 @@ import (
 	"strconv"
 	"strings"
 	"time"
+	"unicode"
 )
 
 type standinViolation struct {
@@ -113,8 +115,416 @@ func runStandins(w *World, repo, verif, prop, tier string, seed int) []standinRe
 	return res
 }
 
+// replayOnRealCode turns the solver's counterexample for a failed postcondition into a Go test that calls the real
+// function with the model's arguments and evaluates the violated clause on what the function returns.  It is built
+// for the functions whose counterexample is a complete input: top-level functions whose parameters and results are
+// strings, booleans and integers (also named ones of the function's package) and whose clause speaks only about
+// them with operators the Go translation below covers.  For every other obligation (heap, ghosts, uninterpreted
+// spec functions, methods) there is no input to run: the caller reports no-failing-input-found.
 func replayOnRealCode(w *World, repo, verif, prop string, o *Obligation) (string, bool) {
+	// Results of callees under assumed contracts are arbitrary in the solver's model, so its first counterexample need
+	// not be a failing input of the real function: further models are requested (the earlier argument vectors
+	// blocked) until one replays or six have been tried.
+	mv := o.ModelVal
+	var report strings.Builder
+	var blocks []string
+	for attempt := 1; attempt <= 6; attempt++ {
+		out, ok, vec := replayOnce(w, repo, verif, prop, o, mv, attempt)
+		if out == "" {
+			return report.String(), false
+		}
+		fmt.Fprintf(&report, "attempt %d:\n%s\n", attempt, out)
+		if ok {
+			return report.String(), true
+		}
+		if len(vec) == 0 {
+			break
+		}
+		blocks = append(blocks, "(assert (not (and "+strings.Join(vec, " ")+")))")
+		script := o.script(w, false, true)
+		script = strings.Replace(script, "(check-sat)", strings.Join(blocks, "\n")+"\n(check-sat)", 1)
+		out2 := outDir
+		if out2 == "" {
+			out2 = verif
+		}
+		f := filepath.Join(out2, "work", prop, "replay_next_model.smt2")
+		os.MkdirAll(filepath.Dir(f), 0o755)
+		if os.WriteFile(f, []byte(script), 0o644) != nil {
+			break
+		}
+		st, txt, _ := runSolver(solvers[0], f, 10, attempt)
+		if st != "sat" {
+			fmt.Fprintf(&report, "no further model (%s)\n", st)
+			break
+		}
+		mv = parseModel(txt)
+	}
+	return report.String(), false
+}
+
+// replayOnce builds and runs the test for one model; vec are SMT equalities fixing the argument vector it used.
+func replayOnce(w *World, repo, verif, prop string, o *Obligation, modelVal map[string]string, attempt int) (string, bool, []string) {
+	if o.vc == nil || o.vc.c == nil || o.vc.fn == nil || o.Kind != "post" {
+		return "", false, nil
+	}
+	fn, c := o.vc.fn, o.vc.c
+	if fn.Parent() != nil || fn.Pkg == nil || !strings.HasPrefix(fn.Pkg.Pkg.Path(), repoMod) {
+		return "", false, nil
+	}
+	recv := fn.Signature.Recv() // a method is replayed when its receiver is a (non-pointer) basic named type
+	var clause Expr
+	for i, e := range c.Ensures {
+		label := e.Label
+		if label == "" {
+			label = fmt.Sprintf("e%d", i)
+		}
+		if strings.HasSuffix(o.Name, "#post:"+label) {
+			clause = e.E
+		}
+	}
+	if clause == nil {
+		return "", false, nil
+	}
+	pkg := fn.Pkg.Pkg
+	basic := func(t types.Type) (string, bool) {
+		b, ok := t.Underlying().(*types.Basic)
+		if !ok || b.Info()&(types.IsString|types.IsBoolean|types.IsInteger) == 0 {
+			return "", false
+		}
+		if n, isNamed := t.(*types.Named); isNamed {
+			if n.Obj().Pkg() != pkg {
+				return "", false
+			}
+			return n.Obj().Name(), true
+		}
+		return b.Name(), true
+	}
+	names := map[string]string{} // spec name -> Go variable
+	var vec []string
+	var decl, args, show []string
+	var pvars []*types.Var
+	if recv != nil {
+		pvars = append(pvars, recv)
+	}
+	for i := 0; i < fn.Signature.Params().Len(); i++ {
+		pvars = append(pvars, fn.Signature.Params().At(i))
+	}
+	ps := types.NewTuple(pvars...)
+	if ps.Len() != len(c.Params) || fn.Signature.Variadic() {
+		return "", false, nil
+	}
+	for i := 0; i < ps.Len(); i++ {
+		var val string
+		found := false
+		for k, v := range modelVal {
+			if strings.HasPrefix(k, "p_"+c.Params[i]+"_") {
+				val, found = v, true
+				vec = append(vec, "(= "+k+" "+v+")")
+			}
+		}
+		tn, ok := basic(ps.At(i).Type())
+		var lit string
+		if ok {
+			lit, ok = goLiteral(val, found, ps.At(i).Type())
+		} else if st, isStruct := ps.At(i).Type().Underlying().(*types.Struct); isStruct {
+			// a struct of the function's package whose fields are all basic: (mk_S_… v0 v1 …) in the model
+			n, isNamed := ps.At(i).Type().(*types.Named)
+			if !isNamed || n.Obj().Pkg() != pkg {
+				return "", false, nil
+			}
+			tn = n.Obj().Name()
+			parts := splitSExpr(val)
+			if found && len(parts) != st.NumFields()+1 {
+				return "", false, nil
+			}
+			var fields []string
+			ok = true
+			for fi := 0; fi < st.NumFields(); fi++ {
+				if _, isBasic := basic(st.Field(fi).Type()); !isBasic {
+					return "", false, nil
+				}
+				fv, ffound := "", false
+				if found {
+					fv, ffound = parts[fi+1], true
+				}
+				fl, fok := goLiteral(fv, ffound, st.Field(fi).Type())
+				ok = ok && fok
+				fields = append(fields, st.Field(fi).Name()+": "+fl)
+			}
+			lit = tn + "{" + strings.Join(fields, ", ") + "}"
+		} else {
+			return "", false, nil
+		}
+		if !ok {
+			return "the model's value for " + c.Params[i] + " cannot be written as a Go literal: " + val, false, nil
+		}
+		g := fmt.Sprintf("a%d", i)
+		names[c.Params[i]] = g
+		decl = append(decl, fmt.Sprintf("\tvar %s %s = %s", g, tn, lit))
+		args = append(args, g)
+		show = append(show, fmt.Sprintf("%s=%%#v", c.Params[i]))
+	}
+	rs := fn.Signature.Results()
+	if rs.Len() != len(c.Results) {
+		return "", false, nil
+	}
+	var res []string
+	for i := 0; i < rs.Len(); i++ {
+		if _, ok := basic(rs.At(i).Type()); !ok {
+			if !types.Identical(rs.At(i).Type(), types.Universe.Lookup("error").Type()) {
+				return "", false, nil
+			}
+		}
+		g := fmt.Sprintf("r%d", i)
+		names[c.Results[i]] = g
+		res = append(res, g)
+	}
+	goClause, ok := specToGo(clause, names)
+	if !ok {
+		return "", false, nil
+	}
+	var b strings.Builder
+	fmt.Fprintf(&b, "package %s\n\n// Generated by govc: replay of the counterexample for %s.\n\nimport (\n\t\"fmt\"\n\t\"strconv\"\n\t\"strings\"\n\t\"testing\"\n)\n\n", pkg.Name(), o.Name)
+	b.WriteString("var _ = strconv.Itoa\nvar _ = strings.HasPrefix\n\n")
+	b.WriteString("func vIte[T any](c bool, a, b T) T {\n\tif c {\n\t\treturn a\n\t}\n\treturn b\n}\n\n")
+	b.WriteString("// vSubstr is SMT-LIB str.substr: empty unless 0 <= i < len(s) and n > 0, clipped at the end\nfunc vSubstr(s string, i, n int) string {\n\tif i < 0 || i >= len(s) || n <= 0 {\n\t\treturn \"\"\n\t}\n\tif i+n > len(s) {\n\t\tn = len(s) - i\n\t}\n\treturn s[i : i+n]\n}\n\n")
+	b.WriteString("func TestVerifReplayCounterexample(t *testing.T) {\n")
+	b.WriteString(strings.Join(decl, "\n") + "\n")
+	call := fn.Name() + "(" + strings.Join(args, ", ") + ")"
+	if recv != nil {
+		if _, isBasic := basic(recv.Type()); !isBasic {
+			return "", false, nil
+		}
+		call = args[0] + "." + fn.Name() + "(" + strings.Join(args[1:], ", ") + ")"
+	}
+	if len(res) > 0 {
+		fmt.Fprintf(&b, "\t%s := %s\n", strings.Join(res, ", "), call)
+		for _, r := range res {
+			fmt.Fprintf(&b, "\t_ = %s\n", r)
+		}
+	} else {
+		fmt.Fprintf(&b, "\t%s\n", call)
+	}
+	fmt.Fprintf(&b, "\tholds := %s\n", goClause)
+	showFmt := strings.ReplaceAll(strings.Join(show, " "), "%%", "%")
+	argList := strings.Join(args, ", ")
+	if argList != "" {
+		argList += ", "
+	}
+	b.WriteString("\tfmt.Printf(\"VREPLAY holds=%v " + showFmt + " results=%#v\\n\", holds, " + argList + "[]any{" + strings.Join(res, ", ") + "})\n}\n")
+	out := outDir
+	if out == "" {
+		out = verif
+	}
+	dir := filepath.Join(out, "replays", prop)
+	os.MkdirAll(dir, 0o755)
+	testFile := filepath.Join(dir, fmt.Sprintf("%s_replay%d_test.go", trunc(mangle(o.Name), 120), attempt))
+	if err := os.WriteFile(testFile, []byte(b.String()), 0o644); err != nil {
+		return "", false, nil
+	}
+	rel, _ := filepath.Rel(repoMod, pkg.Path())
+	txt, _ := runOverlayTest(repo, rel, testFile, "zz_verif_replay_test.go", "TestVerifReplayCounterexample", filepath.Join(out, "work", prop), nil, 60)
+	report := "generated test: " + testFile + "\n"
+	for _, l := range strings.Split(txt, "\n") {
+		if strings.HasPrefix(l, "VREPLAY ") {
+			report += l + "\n"
+			if strings.HasPrefix(l, "VREPLAY holds=false") {
+				return report + "the real function violates the clause on this input", true, vec
+			}
+			return report + "the clause holds on the real function for this input (this model is an artefact of the assumed contracts of callees)", false, vec
+		}
+	}
+	return report + "the generated test did not run to completion:\n" + trunc(txt, 1500), false, vec
+}
+
+// goLiteral writes a model value of a basic type as a Go literal.
+func goLiteral(v string, found bool, t types.Type) (string, bool) {
+	b := t.Underlying().(*types.Basic)
+	switch {
+	case b.Info()&types.IsString != 0:
+		if !found {
+			return `""`, true
+		}
+		if len(v) < 2 || v[0] != '"' {
+			return "", false
+		}
+		body := strings.ReplaceAll(v[1:len(v)-1], `""`, `"`)
+		// SMT-LIB escapes: \u{X} / \uXXXX
+		var sb strings.Builder
+		for i := 0; i < len(body); {
+			if strings.HasPrefix(body[i:], "\\u{") {
+				j := strings.Index(body[i:], "}")
+				if j < 0 {
+					return "", false
+				}
+				n, err := strconv.ParseUint(body[i+3:i+j], 16, 32)
+				if err != nil || n > 255 {
+					return "", false
+				}
+				sb.WriteByte(byte(n))
+				i += j + 1
+				continue
+			}
+			sb.WriteByte(body[i])
+			i++
+		}
+		return strconv.Quote(sb.String()), true
+	case b.Info()&types.IsBoolean != 0:
+		if !found {
+			return "false", true
+		}
+		return v, v == "true" || v == "false"
+	default:
+		if !found {
+			return "0", true
+		}
+		v = strings.TrimSpace(v)
+		neg := false
+		if strings.HasPrefix(v, "(-") {
+			neg = true
+			v = strings.TrimSpace(strings.TrimSuffix(strings.TrimPrefix(v, "(-"), ")"))
+		}
+		n, err := strconv.ParseInt(v, 10, 64)
+		if err != nil {
+			return "", false
+		}
+		if neg {
+			n = -n
+		}
+		return strconv.FormatInt(n, 10), true
+	}
+}
+
+// specToGo translates a clause over basic values into a Go boolean expression; ok is false for anything else.
+func specToGo(e Expr, names map[string]string) (string, bool) {
+	switch x := e.(type) {
+	case *EInt:
+		return x.V, true
+	case *EStr:
+		return strconv.Quote(x.V), true
+	case *EBool:
+		return fmt.Sprint(x.V), true
+	case *ENil:
+		return "nil", true
+	case *EIdent:
+		if g, ok := names[x.Name]; ok {
+			return g, true
+		}
+		if x.Name != "" && unicode.IsUpper(rune(x.Name[0])) {
+			return x.Name, true // a constant of the package
+		}
+		return "", false
+	case *ESel:
+		a, ok := specToGo(x.X, names)
+		return a + "." + x.F, ok
+	case *EOld:
+		return specToGo(x.X, names) // parameters are passed by value
+	case *EUn:
+		a, ok := specToGo(x.X, names)
+		return "(" + x.Op + a + ")", ok && (x.Op == "!" || x.Op == "-")
+	case *EIte:
+		c, ok1 := specToGo(x.C, names)
+		a, ok2 := specToGo(x.A, names)
+		b, ok3 := specToGo(x.B, names)
+		return "vIte(" + c + ", " + a + ", " + b + ")", ok1 && ok2 && ok3
+	case *EBin:
+		a, ok1 := specToGo(x.X, names)
+		b, ok2 := specToGo(x.Y, names)
+		if !ok1 || !ok2 {
+			return "", false
+		}
+		switch x.Op {
+		case "==>":
+			return "(!(" + a + ") || (" + b + "))", true
+		case "<==>":
+			return "((" + a + ") == (" + b + "))", true
+		case "&&", "||", "==", "!=", "<", "<=", ">", ">=", "+", "-", "*":
+			return "(" + a + " " + x.Op + " " + b + ")", true
+		}
+		return "", false
+	case *EIdx:
+		a, ok1 := specToGo(x.X, names)
+		i, ok2 := specToGo(x.I, names)
+		return "int(" + a + "[" + i + "])", ok1 && ok2
+	case *ECall:
+		var as []string
+		for _, a := range x.Args {
+			g, ok := specToGo(a, names)
+			if !ok {
+				return "", false
+			}
+			as = append(as, g)
+		}
+		switch {
+		case x.F == "len" && len(as) == 1:
+			return "len(" + as[0] + ")", true
+		case x.F == "substr" && len(as) == 3:
+			return "vSubstr(" + strings.Join(as, ", ") + ")", true
+		case x.F == "hasPrefix" && len(as) == 2:
+			return "strings.HasPrefix(" + as[0] + ", " + as[1] + ")", true
+		case x.F == "hasSuffix" && len(as) == 2:
+			return "strings.HasSuffix(" + as[0] + ", " + as[1] + ")", true
+		case x.F == "contains" && len(as) == 2:
+			return "strings.Contains(" + as[0] + ", " + as[1] + ")", true
+		case x.F == "itoa" && len(as) == 1:
+			return "strconv.Itoa(" + as[0] + ")", true
+		case x.F == "replaceAll" && len(as) == 3:
+			return "strings.ReplaceAll(" + strings.Join(as, ", ") + ")", true
+		}
+		return "", false
+	}
 	return "", false
 }
 
 func runSelftest(repo, verif string, a []string) int { return 2 }
+
+// splitSExpr splits "(f a b c)" into [f a b c] at the top level (string literals and nested lists kept whole).
+func splitSExpr(v string) []string {
+	v = strings.TrimSpace(v)
+	if len(v) < 2 || v[0] != '(' {
+		return []string{v}
+	}
+	v = v[1 : len(v)-1]
+	var out []string
+	depth, inStr, start := 0, false, -1
+	for i := 0; i < len(v); i++ {
+		ch := v[i]
+		if inStr {
+			if ch == '"' {
+				if i+1 < len(v) && v[i+1] == '"' {
+					i++
+					continue
+				}
+				inStr = false
+			}
+			continue
+		}
+		switch {
+		case ch == '"':
+			if start < 0 {
+				start = i
+			}
+			inStr = true
+		case ch == '(':
+			if start < 0 {
+				start = i
+			}
+			depth++
+		case ch == ')':
+			depth--
+		case ch == ' ' || ch == '\n' || ch == '\t':
+			if depth == 0 && start >= 0 {
+				out = append(out, v[start:i])
+				start = -1
+			}
+		default:
+			if start < 0 {
+				start = i
+			}
+		}
+	}
+	if start >= 0 {
+		out = append(out, v[start:])
+	}
+	return out
+}
